@@ -24,14 +24,13 @@ ASSUMPTIONS = ["scipy.linalg.expm on dense matrices (<= 6 qubits incl. controls)
                "||[H_j,[H_j,S_j]]|| with S_j = sum_{k>j} H_k, in the implementation's own term order, plus 1e-10 per skipped tiny term",
                "order 4 is only checked for convergence (error shrinks at least 8x when the step is halved, or is below 1e-9)"]
 ANCHORS = [
-    ("tangelo/toolboxes/ansatz_generator/ansatz_utils.py", "32-81", "basis change, CNOT ladder, RZ/CRZ angle"),
-    ("tangelo/toolboxes/ansatz_generator/ansatz_utils.py", "84-145", "term ordering, identity-term phase / controlled phase"),
-    ("tangelo/toolboxes/ansatz_generator/ansatz_utils.py", "148-169", "recursive Trotter-Suzuki coefficients"),
-    ("tangelo/toolboxes/ansatz_generator/ansatz_utils.py", "172-249", "time/step scaling, fermionic input mapping, phase**n_steps"),
-    ("tangelo/toolboxes/unitary_generator/trotter_suzuki.py", "56-77", "TrotterSuzukiUnitary.build_circuit"),
+    ("tangelo/toolboxes/ansatz_generator/ansatz_utils.py", "pauli_op_to_gate,exp_pauliword_to_gates", "basis change, CNOT ladder, RZ/CRZ angle"),
+    ("tangelo/toolboxes/ansatz_generator/ansatz_utils.py", "get_exponentiated_qubit_operator_circuit", "term ordering, identity-term phase / controlled phase"),
+    ("tangelo/toolboxes/ansatz_generator/ansatz_utils.py", "recursive_trotter_suzuki_decomposition", "recursive Trotter-Suzuki coefficients"),
+    ("tangelo/toolboxes/ansatz_generator/ansatz_utils.py", "trotterize", "time/step scaling, fermionic input mapping, phase**n_steps"),
+    ("tangelo/toolboxes/unitary_generator/trotter_suzuki.py", "build_circuit", "TrotterSuzukiUnitary.build_circuit"),
 ]
-REQUIRED = {"pauli_word_exponential": 1000, "commuting_exact": 60, "trotter_bound_order1": 15, "trotter_bound_order2": 15,
-            "higher_order_convergence": 8, "fermionic_evolution": 30, "controlled_evolution": 40, "trotter_suzuki_unitary": 20}
+REQUIRED = {"pauli_word_exponential": 1000, "commuting_exact": 33, "trotter_bound_order1": 9, "trotter_bound_order2": 12, "higher_order_convergence": 3, "fermionic_evolution": 25, "controlled_evolution": 35, "trotter_suzuki_unitary": 9}
 BUDGET = {"quick": 240, "thorough": 2400}
 TOL = 1e-9
 COEFS = [0.3, -0.3, 0.0, 1e-11, 7.1, -7.1, 2 * math.pi, -2 * math.pi, -4 * math.pi - 0.2, math.pi / 2]
